@@ -38,7 +38,12 @@ Inductive ecase :=
    try_into_task_compatible (Ok task re-wrapped | None); NarseseValue::try_cast_to_sentence (is Ok?, the value
    inside Ok / handed back inside Err) *)
 | ECast (v : narsese Z) (is3 : bool * bool * bool) (into_t into_s into_k compat : option (narsese Z))
-        (to_sentence : bool * narsese Z).
+        (to_sentence : bool * narsese Z)
+(* the ParseError of a rejected input: the cursor at which the error was raised (`index`, not clamped) and the
+   window of the environment it shows (`env_slice`), both read from the error's Debug output.  Not part of any
+   property; compared because the index is where the last attempted branch gave up, i.e. it observes the cursor
+   movement on FAILING paths, and the window is generate_env_slice in full (not only "does not panic") *)
+| EParseErrAt (fmt : N) (input : str) (index : N) (window : str).
 
 Definition zlist_eqb (a b : list Z) : bool := list_eqb Z.eqb a b.
 Definition stamp_eqb (a b : stamp) : bool :=
@@ -115,6 +120,13 @@ Definition ecase_check (c : ecase) : bool :=
       match nv_try_cast_to_sentence (@try_cast_to_sentence Z) v with
       | inl w => fst ts && narsese_eqb w (snd ts)
       | inr w => negb (fst ts) && narsese_eqb w (snd ts)
+      end
+  | EParseErrAt f input index window =>
+      match xparse_narsese (fmt_of f) input with
+      | PErr st =>
+          let '(l, r) := err_window (s_len _ st) (s_head _ st) in
+          N.eqb (N.of_nat (s_head _ st)) index && str_eqb (take (r - l) (drop l input)) window
+      | _ => false
       end
   end.
 Definition mismatches_enum := mism ecase_check 0.
